@@ -703,8 +703,18 @@ func TestRun(t *testing.T) {
 			if i%1000 == 0 {
 				vr.CaseLog(last)
 			}
-			_ = cc.Process(nil, d)
+			func() {
+				defer func() {
+					if e := recover(); e != nil {
+						rec.Violation("C02/udp-process/panic", fmt.Sprint(e), last)
+					}
+				}()
+				_ = cc.Process(nil, d)
+			}()
 			rec.Count("live_process_calls", 1)
+			if rec.NViolations() > 12 {
+				return
+			}
 		}
 	}()
 	select {
